@@ -1,4 +1,5 @@
 """C18 — Camt053 import conserves the statement."""
+import re
 from fractions import Fraction
 
 from common import standard_prologue, run_sharded, enc, HX, DRV
@@ -98,7 +99,13 @@ def make_detail(rng, ccy, cd, cents, entry_charges, allow_charges):
     if rng.random() < 0.3:
         info["ultimate_debtor_name"] = rng.choice(NAMES)
     if rng.random() < 0.3:
+        info["ultimate_creditor_name"] = rng.choice(NAMES)      # usually different from the ultimate debtor
+    if rng.random() < 0.25 and ("debtor_name" not in info and "creditor_name" not in info):
+        info["debtor_name" if cd == "D" else "creditor_name"] = rng.choice(NAMES)    # the other side, too
+    if rng.random() < 0.3:
         info["creditor_account_id"] = "CH%d" % rng.randint(10 ** 10, 10 ** 11)
+    if rng.random() < 0.25:
+        info["debtor_account_id"] = "DE%d" % rng.randint(10 ** 10, 10 ** 11)
     if rng.random() < 0.3:
         info["remittance_unstructured_info"] = "invoice %d" % rng.randint(1, 999)
     if rng.random() < 0.7:
@@ -247,9 +254,12 @@ def render_xml(rng, stmts):
                     o.append(render_charges(rng, d["charges"], ccy))
                     inf = d["info"]
                     rp = []
-                    for key, tag in (("debtor_name", "Dbtr"), ("creditor_name", "Cdtr"), ("ultimate_debtor_name", "UltmtDbtr")):
+                    for key, tag in (("debtor_name", "Dbtr"), ("creditor_name", "Cdtr"), ("ultimate_debtor_name", "UltmtDbtr"),
+                                     ("ultimate_creditor_name", "UltmtCdtr")):
                         if key in inf:
                             rp.append(render_party(tag, inf[key], rng.random() < 0.3))
+                    if "debtor_account_id" in inf:
+                        rp.append("<DbtrAcct><Id><IBAN>%s</IBAN></Id></DbtrAcct>" % inf["debtor_account_id"])
                     if "creditor_account_id" in inf:
                         if rng.random() < 0.5:
                             rp.append("<CdtrAcct><Id><IBAN>%s</IBAN></Id></CdtrAcct>" % inf["creditor_account_id"])
@@ -321,6 +331,13 @@ def make_rules(rng):
         rules.append(Rule([[("additional_entry_info", "fee")]], account="Expenses:Fees", pending=True))
     if rng.random() < 0.3:
         rules.append(Rule([[("debtor_name", "ACME")]], account="Income:Salary", pending=rng.random() < 0.5))
+    # one rule per party / reference field, each looking for a name: every matcher must read ITS field
+    for f, acct in (("ultimate_creditor_name", "Expenses:UltCdtr"), ("ultimate_debtor_name", "Liabilities:UltDbtr"),
+                    ("creditor_name", "Expenses:Cdtr"), ("debtor_name", "Income:Dbtr"), ("creditor_account_id", "Assets:ByCdtrAcct"),
+                    ("debtor_account_id", "Assets:ByDbtrAcct")):
+        if rng.random() < 0.25:
+            pat = rng.choice(NAMES)[:4] if "account" not in f else rng.choice(["CH", "DE", "7"])
+            rules.append(Rule([[(f, re.escape(pat))]], account=acct))
     return rules
 
 
